@@ -131,7 +131,9 @@ Scenarios == <<
   << N1("CREATE", A), Ap(A, 3, <<>>), Ap(A, 4, <<":Seen">>), Ap(A, 1, <<"kw2">>), N1("EXAMINE", A) >>,
   \* 3: a hierarchy with subscriptions (for LIST / LSUB)
   << N1("CREATE", A), N1("CREATE", AB), N1("CREATE", <<97, 47, 98, 47, 99>>), N1("CREATE", <<99>>),
-     N1("CREATE", <<97, 98>>), N1("SUBSCRIBE", AB), N1("SUBSCRIBE", <<99>>), Ap(AB, 5, <<>>) >>
+     N1("CREATE", <<97, 98>>), N1("SUBSCRIBE", AB), N1("SUBSCRIBE", <<99>>), Ap(AB, 5, <<>>) >>,
+  \* 4: a multipart message whose body holds no part at all (it has no section 1), next to an ordinary one
+  << N1("CREATE", A), Ap(A, 7, <<>>), Ap(A, 1, <<":Seen">>), N1("SELECT", A) >>
 >>
 
 RECURSIVE Fold(_, _, _)
